@@ -214,6 +214,18 @@ func (p *prov) origin(v ssa.Value, d int) string {
 	case *ssa.Lookup:
 		return p.origin(x.X, d+1) + "[" + p.origin(x.Index, d+1) + "]"
 	case *ssa.Extract:
+		// a result of a thin forwarding wrapper (`func newCtx() (context.Context, context.CancelFunc) { return context.WithTimeout(…) }`)
+		if call, ok := x.Tuple.(*ssa.Call); ok && d < 20 {
+			if f := call.Common().StaticCallee(); f != nil && !call.Common().IsInvoke() {
+				var args []string
+				for _, a := range call.Common().Args {
+					args = append(args, p.origin(a, d+1))
+				}
+				if t, ok := p.accessorN(f, args, x.Index, d); ok {
+					return t
+				}
+			}
+		}
 		return p.origin(x.Tuple, d+1) + fmt.Sprintf("#%d", x.Index)
 	case *ssa.TypeAssert:
 		return "assert(" + p.origin(x.X, d+1) + "," + shortType(x.AssertedType) + ")"
@@ -527,15 +539,22 @@ func (w *World) litsIn(fn *ssa.Function, named *types.Named) []*Lit {
 // its parameters, no call, no store, no branch — denotes that path. The term of a call of it is the path with the
 // parameter replaced by the argument's term, so `s.rebalanceDelay()` and `s.config.….RebalanceDelay` are one origin.
 func (p *prov) accessor(f *ssa.Function, args []string, d int) (string, bool) {
+	if ret := p.w.forwardingBody(f); ret == nil || len(ret.Results) != 1 {
+		return "", false
+	}
+	return p.accessorN(f, args, 0, d)
+}
+
+func (p *prov) accessorN(f *ssa.Function, args []string, idx int, d int) (string, bool) {
 	if p.w == nil || len(f.Params) != len(args) || d > 20 {
 		return "", false
 	}
 	ret := p.w.forwardingBody(f)
-	if ret == nil {
+	if ret == nil || idx >= len(ret.Results) {
 		return "", false
 	}
 	q := &prov{w: p.w}
-	t := q.origin(ret.Results[0], d+1)
+	t := q.origin(ret.Results[idx], d+1)
 	if strings.Contains(t, "φ") || strings.Contains(t, "free(") {
 		return "", false
 	}
@@ -572,14 +591,17 @@ func (p *prov) accessor(f *ssa.Function, args []string, d int) (string, bool) {
 // forwardingBody: f is a module-local function whose single block only loads, selects fields, converts and makes
 // static calls, and returns one value — a pure accessor or a thin forwarding wrapper. Returns the return instruction.
 func (w *World) forwardingBody(f *ssa.Function) *ssa.Return {
-	if f == nil || !w.inModule(f) || len(f.Blocks) != 1 || len(f.Params) == 0 || len(f.FreeVars) > 0 {
+	if f == nil || !w.inModule(f) || len(f.Blocks) != 1 || len(f.FreeVars) > 0 {
 		return nil
+	}
+	if f.Signature.Recv() != nil && recvTypeName(f.Signature.Recv().Type()) == "ConcurrentSwissMap" {
+		return nil // the map wrapper's methods are the primitives the rules speak about (C04.R9 decides that they forward)
 	}
 	var ret *ssa.Return
 	nCalls := 0
 	for _, in := range f.Blocks[0].Instrs {
 		switch x := in.(type) {
-		case *ssa.FieldAddr, *ssa.Field, *ssa.ChangeType, *ssa.Convert, *ssa.DebugRef, *ssa.MakeInterface:
+		case *ssa.FieldAddr, *ssa.Field, *ssa.ChangeType, *ssa.Convert, *ssa.DebugRef, *ssa.MakeInterface, *ssa.Extract:
 		case *ssa.UnOp:
 			if x.Op != token.MUL {
 				return nil
@@ -595,7 +617,7 @@ func (w *World) forwardingBody(f *ssa.Function) *ssa.Return {
 			return nil
 		}
 	}
-	if ret == nil || len(ret.Results) != 1 || nCalls > 1 {
+	if ret == nil || len(ret.Results) < 1 || nCalls > 3 {
 		return nil
 	}
 	return ret
